@@ -858,6 +858,8 @@ type c16B struct {
 	whole map[string][]string    // kind -> whole-file targets created
 	comps map[string][][2]string // kind -> (doc, name) components created
 	over  bool                   // tape exhausted at least once
+	overN   int                  // arity of the first decision asked after the end of the tape
+	top     bool                 // the slot being filled is a root component
 	noReuse int                  // >0 inside allOf: no reference to possibly unfinished ancestors (unguarded recursion is C10's finding #6)
 }
 
@@ -876,7 +878,10 @@ func (b *c16B) choose(n int) int {
 		}
 		return v
 	}
-	b.over = true
+	if !b.over {
+		b.over = true
+		b.overN = n
+	}
 	return 0
 }
 
@@ -963,7 +968,22 @@ func (b *c16B) slot(kind, file string, depth int) any {
 	if depth <= 0 {
 		return b.val(kind, file, 0)
 	}
-	switch b.choose(6) {
+	style := b.choose(6)
+	if b.r != nil {
+		// random stream: keep the known-finding classes present but rare, so that most layouts are clean
+		leaf := kind == "links" || kind == "examples" || kind == "securitySchemes"
+		if style == 1 && (leaf || (b.top && (kind == "headers" || kind == "responses"))) && b.r.Intn(8) != 0 {
+			style = 2
+		}
+		if b.top && kind == "links" && style != 0 && b.r.Intn(8) != 0 {
+			style = 0
+		}
+		if kind == "callbacks" && style != 0 && b.r.Intn(3) != 0 {
+			style = 0
+		}
+	}
+	b.top = false
+	switch style {
 	default:
 		return b.val(kind, file, depth-1)
 	case 1: // whole-file reference (new file, or an existing one of the same kind)
@@ -1155,11 +1175,16 @@ func (b *c16B) build(depth int) {
 	rootDoc["paths"] = paths
 	// focus: which kind gets a top-level component slot (besides what the path item needs)
 	nTop := 1 + b.choose(2)
+	if b.r != nil {
+		nTop = b.r.Intn(4)
+	}
 	for i := 0; i < nTop; i++ {
 		k := c16Kinds[b.choose(len(c16Kinds))]
 		name := fmt.Sprintf("T%d", b.next())
 		b.setComp(b.root, k, name, map[string]any{"$ref": "#/pending"})
+		b.top = true
 		b.setComp(b.root, k, name, b.slot(k, b.root, depth))
+		b.top = false
 	}
 	switch b.choose(3) {
 	case 0:
@@ -1370,9 +1395,9 @@ func genC16(ctx *hx.Ctx, emit func(hx.Case)) {
 		return
 	}
 	// exhaustive: all decision tapes up to length L over alphabet 0..5 (values are clamped per decision)
-	L := 4
+	L := 5
 	if ctx.Thorough() {
-		L = 5
+		L = 6
 	}
 	var rec func(tape []int)
 	seen := map[string]bool{}
@@ -1387,10 +1412,7 @@ func genC16(ctx *hx.Ctx, emit func(hx.Case)) {
 		if len(tape) >= L || !b.over {
 			return
 		}
-		for v := 0; v < 6; v++ {
-			if v > 0 && len(tape) == 0 && v >= len(c16Roots) {
-				break
-			}
+		for v := 0; v < b.overN; v++ {
 			rec(append(append([]int{}, tape...), v))
 		}
 	}
